@@ -230,10 +230,18 @@ def r4_cutoff(ctx, rid):
         ctx.violation(rid, cgrun, cgrun.node, "ComputeGraph.run no longer returns the backend's time axis under 'time'", label="time key")
 
 
+def r5_history_fed_with_step_result(ctx, rid):
+    """For delayed models the fixed-step iterates depend on what the solver files in the delay history: ((i+1)*dt, updated state)
+    after every step (same rule as C10-R4)."""
+    from .c10 import r4_history_time_units
+    r4_history_time_units(ctx, rid)
+
+
 RULES = [
     ("C03-R0", r0_step_formula, 5),
     ("C03-R1", r1_borrowed_buffer, 5),
     ("C03-R2", r2_sample_then_step, 5),
     ("C03-R3", r3_rows_and_time_axis, 7),
     ("C03-R4", r4_cutoff, 2),
+    ("C03-R5", r5_history_fed_with_step_result, 6),
 ]
